@@ -2,7 +2,7 @@
    each theorem of Property.v and show the conclusions are not empty.
    (The unchanged code satisfies C20, so there is no legacy refutation.) *)
 From Coq Require Import ZArith List Bool Lia.
-From Verif Require Import C20.Model C20.Proofs.
+From Verif Require Import C20.Model C20.Proofs C20.ProofsApprover.
 Import ListNotations.
 Open Scope Z_scope.
 
@@ -381,3 +381,65 @@ Proof.
   split; [vm_compute; reflexivity|]. eexists. split; [vm_compute; reflexivity|].
   vm_compute. repeat split.
 Qed.
+
+(* ---- approvers that raise or call back; the clock ---------------------------- *)
+
+(* the approver raises exception class 6 (KeyboardInterrupt) when asked to set
+   gene 0 to 2, and calls mutate(0, 4) on the genome when asked about gene 1 *)
+Definition beh0 : behaviour :=
+  interp_beh [ (RMatch (Some 0) None (Some (VInt 2)) None, XRaise 6);
+               (RMatch (Some 1) None None None, XCall 0 (VInt 4)) ].
+
+(* c20_raising_approver_changes_nothing + c20_locked_genome_stays_gated: the
+   call ends with the exception and changes nothing; the caller goes on: the
+   next mutate of gene 0 is asked about and approved (callback only0), the
+   one of gene 3 refused and logged *)
+Example ex_raising_approver :
+  xstep beh0 [P0] (0%nat, OMutate 0 2) = ([P0], XRaised 6) /\
+  act_of beh0 P0 0 2 RUser = XRaise 6 /\
+  exists G', nth_error (xrun beh0 [P0] [(0%nat, OMutate 0 2); (0%nat, OMutate 0 3); (0%nat, OMutate 3 3)]) 0 = Some G' /\
+    stored G' 0 = Some (VInt 3) /\ stored G' 3 = Some (VInt 9) /\
+    mlog G' = [mkM 0 1 3 RUser true; mkM 3 9 3 RUser false].
+Proof. split; [vm_compute; reflexivity|]. split; [vm_compute; reflexivity|]. eexists. vm_compute. repeat split. Qed.
+
+(* c20_reentrant_approver_is_two_gated_calls: asked about gene 1 (refused:
+   only0 approves gene 0 only) the approver first sets gene 0 to 4 (approved) *)
+Example ex_reentrant_approver :
+  act_of beh0 P0 1 6 RUser = XCall 0 4 /\
+  exists G', g_mutate_x beh0 P0 1 6 RUser = (G', RetN false true) /\
+    stored G' 0 = Some (VInt 4) /\ stored G' 1 = Some (VInt 5) /\
+    mlog G' = [mkM 0 1 4 RUser true; mkM 1 5 6 RUser false].
+Proof. split; [vm_compute; reflexivity|]. eexists. vm_compute. repeat split. Qed.
+
+(* c20_approver_changing_the_gene_in_question: asked about gene 0 -> 7 the
+   approver first sets gene 0 to 4 itself; the rollback afterwards restores 1,
+   the value the outer entry records *)
+Definition beh1 : behaviour := interp_beh [ (RMatch (Some 0) None (Some (VInt 7)) None, XCall 0 (VInt 4)) ].
+Example ex_same_gene_approver :
+  act_of beh1 P0 0 7 RUser = XCall 0 4 /\ stored P0 0 = Some (VInt 1) /\
+  approved_by P0 0 1 4 RUser = true /\
+  exists G', nth_error (xrun beh1 [P0] [(0%nat, OMutate 0 7); (0%nat, ORollback 0)]) 0 = Some G' /\
+    stored G' 0 = Some (VInt 1) /\
+    mlog G' = [mkM 0 1 4 RUser true; mkM 0 1 7 RUser true; mkM 0 7 1 RRollback true].
+Proof. repeat (split; [vm_compute; reflexivity|]). eexists. vm_compute. repeat split. Qed.
+
+(* c20_quiet_approvers_plain_histories is not vacuous *)
+Example ex_quiet : quiet (interp_beh []).
+Proof. intros n old v r. reflexivity. Qed.
+
+(* c20_clock_irrelevant: two approved mutations of gene 0 and a rollback under
+   a clock that stands still and under one that runs backwards: the rollback
+   restores 2, the value before the LAST mutation made; the silence call and
+   the replicate read the clock once each *)
+Definition clock_hist : list op :=
+  [ (0%nat, OMutate 0 2); (0%nat, OMutate 0 3); (0%nat, OSilence 1); (0%nat, ORollback 0);
+    (0%nat, OReplicate [] true []) ].
+Example ex_clock :
+  let frozen : clock := (0, 0, []) in
+  let backwards : clock := (-1, 0, [100]) in
+  snd (trun beh1 [P0] frozen clock_hist) = [[]; []; [0]; []; [0]] /\
+  snd (trun beh1 [P0] backwards clock_hist) = [[]; []; [100]; []; [99]] /\
+  exists G', nth_error (fst (fst (trun beh1 [P0] backwards clock_hist))) 0 = Some G' /\
+    stored G' 0 = Some (VInt 2) /\
+    mlog G' = [mkM 0 1 2 RUser true; mkM 0 2 3 RUser true; mkM 0 3 2 RRollback true].
+Proof. cbv zeta. split; [vm_compute; reflexivity|]. split; [vm_compute; reflexivity|]. eexists. vm_compute. repeat split. Qed.
